@@ -89,7 +89,8 @@ class Recorder:
         self.on_event = on_event or {}  # event name -> callable(event), called (once) from inside the notification handler
         self.events = []  # (t, assoc_key, name, detail)
         self.assocs = {}  # id(assoc) -> (index, assoc)
-        self.raise_at = set(raise_at or ())
+        self.raise_shapes = dict(raise_at) if isinstance(raise_at, dict) else {}
+        self.raise_at = set(int(k) for k in (raise_at or ()))
         self.count = 0
 
     def handlers(self):
@@ -123,13 +124,32 @@ class Recorder:
             idx = self.count
             self.count += 1
             if idx in self.raise_at:
-                raise RuntimeError(f"notification handler failure #{idx} ({name})")
+                raise _exception_shape(self.raise_shapes.get(idx, 0), idx, name)
 
         h.__name__ = "rec_" + name
         return h
 
     def assoc_list(self):
         return [a for _, a in sorted(self.assocs.values(), key=lambda x: x[0])]
+
+
+class _QuietError(Exception):
+    def __str__(self):
+        return ""
+
+
+def _exception_shape(shape, idx, name):
+    """the kinds of exception a user's notification handler may raise"""
+    return [
+        RuntimeError(f"notification handler failure #{idx} ({name})"),
+        RuntimeError(),
+        ValueError(""),
+        AssertionError(),
+        KeyError("missing"),
+        Exception("first line\nsecond line"),
+        _QuietError(),
+        UnicodeDecodeError("utf-8", b"\xff", 0, 1, "invalid start byte"),
+    ][shape % 8]
 
 
 def outcome_of(a):
